@@ -11,6 +11,8 @@ import numpy as np
 from harness import common as C
 
 THEOREMS = {
+    'RsomeV.Props.C18Upper': ['RsomeV.C18Upper.socp_block_complete', 'RsomeV.C18Upper.socp_block_iff', 'RsomeV.C18Upper.socp_exp_upper', 'RsomeV.C18Upper.socp_sandwich',
+                               'RsomeV.C18Upper.socp_lower_cut_gap', 'RsomeV.C18Upper.toSocp_complete', 'RsomeV.C18Upper.toSocp_sound_orig'],
     'RsomeV.Props.C18': ['RsomeV.C18.socp_carry', 'RsomeV.C18.socp_carry_feas', 'RsomeV.C18.socp_feas_block', 'RsomeV.C18.socp_block_sound',
                          'RsomeV.C18.socp_block_sound_div', 'RsomeV.C18.taylor4_close', 'RsomeV.C18.taylor4_pow_close_two_pow',
                          'RsomeV.C18.socp_block_exp_lower', 'RsomeV.C18.socp_exp_lower'],
